@@ -249,14 +249,73 @@ def rule_no_stale_entries_under_a_changed_mask(eng, rep, rule="C12-4.work-vector
     rep.require_count(rule, "work vectors embedded under an active-set mask", ninst, 1)
 
 
+def _pretty(r, n=300):
+    """the residual with the version suffixes of the symbols replaced by small indices (t#731, t#802 -> t1, t2; a base name used once keeps its name)"""
+    import re
+    txt = str(r)
+    seen = {}
+    for m in re.finditer(r"([A-Za-z_]\w*)#(\d+)", txt):
+        seen.setdefault(m.group(1), [])
+        if m.group(2) not in seen[m.group(1)]:
+            seen[m.group(1)].append(m.group(2))
+
+    def sub(m):
+        lst = seen[m.group(1)]
+        return m.group(1) if len(lst) == 1 else "%s%d" % (m.group(1), lst.index(m.group(2)) + 1)
+    return re.sub(r"([A-Za-z_]\w*)#(\d+)", sub, txt)[:n]
+
+
+def rule_gradient_relation(eng, rep, rule="C12-5.gnew-equals-g-plus-H-d"):
+    """'gnew = g + H d' is an algebraic consequence of the statements of trsbox / alt_trust_step, not a numerical accident: every update of d is paired with the
+    update of gnew by H times the same increment (and hred stays H times the reduced d).  dfv/linrel.py interprets the two routines over linear forms in the
+    operators H and E_k (restriction to the free components) and proves the relation inductively at every loop head and every return; the final clipping by
+    d_within_bounds is the subject of C12-1 and is treated as the identity here."""
+    from .. import linrel
+    inner = linrel.Spec(H="H", d="d", gnew="gnew", mask="xbdi", clip={"d_within_bounds"})
+    spec = linrel.Spec(H="H", d="d", gnew="gnew", mask="xbdi", clip={"d_within_bounds"}, callees={"trust_region.alt_trust_step": inner})
+    fi = eng.fn("trust_region.trsbox")
+    eng.fn("trust_region.alt_trust_step")
+    try:
+        verdict, findings, stats = linrel.analyse(eng, fi.fid, spec)
+    except linrel.Unsupported as ex:
+        rep.unknown(rule, eng.where(fi), "linear-relation analysis: unsupported construct (%s)" % ex)
+        return
+    st = stats.get("inductive", {})
+    rep.extra["C12-5"] = {"loops": sorted(st.get("loops", [])), "candidates_kept": sorted(st.get("kept", [])), "candidates_dropped": sorted(st.get("dropped", [])), "claim_checks": sorted(st.get("checks", []))}
+    if verdict == "proved":
+        if not rep.require_count(rule, "loops interpreted by the linear-relation analysis", len(st.get("loops", [])), 4):
+            return
+        if not rep.require_count(rule, "points where gnew - H d == g was checked", len(st.get("checks", [])), 4):
+            return
+        rep.ok(rule, eng.where(fi), "gnew - H.d == g holds at every loop head and at every return of trsbox and of alt_trust_step (inlined at its call): %d loops, claim checked at %s; "
+               "auxiliary facts inferred and verified: %s" % (len(st.get("loops")), ", ".join(sorted(st.get("checks"))), ", ".join(sorted(st.get("kept", []))) or "none"))
+    elif verdict == "violated":
+        seen = set()
+        for (f, node, where, r) in findings["first"]:
+            key = "%s|relation-broken|%s" % (f.fid, where.split(" at line")[0])
+            if key in seen:
+                continue
+            seen.add(key)
+            rep.bad(rule, eng.where(f, node), key, "gnew - H.d is not kept equal to g: at the %s the statements leave the residual  %s  (symbols: values at the start of the pass; "
+                    "E(.) = restriction to the free components; it vanishes only for special data)" % (where, _pretty(r)))
+    else:
+        f, node, where, r = findings["inductive"][0]
+        rep.unknown(rule, eng.where(f, node), "the relation gnew - H.d == g is not inductive under the facts the analysis could infer (%s: residual %s), "
+                    "yet the first pass through every loop keeps it" % (where, _pretty(r)))
+
+
 def run(eng, rep):
     rep.explain("C12 (two structural clauses): every return of trsbox (Python path) and alt_trust_step delivers a step that is the result of d_within_bounds "
                 "(reaching definitions on each return, T2), d_within_bounds is clamp(xopt+d) + pinning + (- xopt); every loop of the sub-problem routines is a "
                 "`for` over a range whose bound is fixed before the loop, and the routines are not recursive (totality).")
     rep.explain('Also decided: the lower- and upper-bound blocks of trsbox / alt_trust_step / d_within_bounds are reflections of each other (T14, C12-3).')
-    rep.not_decided += ["||d|| <= delta(1+1e-8), model decrease, Cauchy decrease, gnew = g + H d (numerical)", "the optional Fortran back end (outside the analysed source)"]
+    rep.explain("Also decided: work vectors written under the active-set mask are re-defined off the mask whenever the mask changed (C12-4); gnew - H.d == g is proved inductively "
+                "at every loop head and return of trsbox / alt_trust_step by abstract interpretation over linear forms in H(.) and E_k(.) (C12-5, dfv/linrel.py).")
+    rep.not_decided += ["||d|| <= delta(1+1e-8), model decrease, Cauchy decrease (numerical)", "rounding error in gnew = g + H d (the relation is decided over the reals, before the final clipping)",
+                        "the optional Fortran back end (outside the analysed source)"]
     rule_final_clipping(eng, rep)
     rule_totality(eng, rep)
     rule_no_stale_entries_under_a_changed_mask(eng, rep)
+    rule_gradient_relation(eng, rep)
     from .mirrorrule import rule_mirror
     rule_mirror(eng, rep, 'C12-3.lower-and-upper-bound-handling-are-reflections', ['trust_region.alt_trust_step', 'trust_region.trsbox', 'trust_region.d_within_bounds'])
